@@ -57,6 +57,34 @@ def replay(path, wd, name, npool):
     return mism, summary
 
 
+def sequence_stats(path, ninit):
+    drawn = {}
+    lens = []
+    mut_after_copy = 0
+    copies = ('reverse', 'append', 'vector->list', 'list->vector', 'map-id', 'for-each-collect', 'vector-copy0', 'vector-copy',
+              'cons', 'list', 'vector', 'string-copy', 'string-copy0', 'substring', 'string-append', 'string->list', 'list->string')
+    for l in open(path):
+        try:
+            ops = json.loads(l)['ops']
+        except (ValueError, KeyError):
+            continue
+        tail = ops[ninit:]
+        lens.append(len(tail))
+        seen_copy = False
+        hit = False
+        for o in tail:
+            drawn[o['op']] = drawn.get(o['op'], 0) + 1
+            if o['op'] in copies:
+                seen_copy = True
+            elif seen_copy and o['op'].endswith('!'):
+                hit = True
+        mut_after_copy += 1 if hit else 0
+    n = max(1, len(lens))
+    return {'behaviours': len(lens), 'mean_drawn_operations': round(sum(lens) / n, 2), 'full_length': sum(1 for x in lens if x == max(lens or [0])),
+            'procedures_drawn': len(drawn), 'least_drawn': sorted(drawn.items(), key=lambda kv: kv[1])[:3],
+            'behaviours_with_a_mutation_after_a_copy': mut_after_copy}
+
+
 def run(pid, tier, module, tiers, npool, rule, assumptions, note_unspecified=''):
     """tiers: list of dict(name, cfg, simulate (or None), depth)."""
     t0 = time.time()
@@ -70,6 +98,13 @@ def run(pid, tier, module, tiers, npool, rule, assumptions, note_unspecified='')
         if n == 0:
             raise vlib.ToolError('%s/%s produced no behaviour' % (module, t['cfg']))
         mism, summ = replay(path, wd, t['name'], npool)
+        seqstat = None
+        if t.get('simulate'):
+            # what the simulated sequences are made of (beyond the fixed initial operations): a simulation that
+            # emits mostly one-step continuations, or never draws some procedure, is reported instead of trusted
+            seqstat = sequence_stats(path, t.get('ninit', 5))
+            if seqstat['mean_drawn_operations'] < 3 or seqstat['procedures_drawn'] < t.get('min_procedures', 20):
+                raise vlib.ToolError('%s/%s: the simulated behaviours are degenerate: %s' % (module, t['cfg'], json.dumps(seqstat)))
         tot['behaviours'] += summ['behaviours']
         tot['ops'] += summ['ops']
         tot['state_checks'] += summ['state_checks']
@@ -81,6 +116,8 @@ def run(pid, tier, module, tiers, npool, rule, assumptions, note_unspecified='')
         tot['samples'] += summ.get('samples', [])[:2]
         tot['tiers'].append({'name': t['name'], 'cfg': t['cfg'], 'exhaustive': not t.get('simulate'), 'behaviours': summ['behaviours'],
                              'tlc_states': r.generated, 'mismatches': len(mism)})
+        if seqstat:
+            tot['tiers'][-1]['sequences'] = seqstat
         seen = set()
         for m in mism:
             key = (m['op'], m['what'].split(' o')[0])
